@@ -1,10 +1,13 @@
 check('C13', 'proof',
       'Coq theorem T13_schedule_covers (all L > n, n = 1, 2, finite and infinite bc) about an executable model of Sweep.get_sweep_schedule: 2m '
       'entries, every position optimised moving right (0..m-1) and moving left (1..m), consecutive entries (cyclically) differ by one site in the '
-      'direction move_right announces.  PARTIAL: T13_no_stale_env_partial - in the model of update_env / free_no_longer_needed_envs / get_LP / '
-      'get_RP / del_LP / del_RP with site version tags, every environment read for eff_H is contracted from the current site tensors and every '
-      'stored environment stays current - is proved by evaluation for finite chains of at most 24 sites and three sweeps only (no induction over '
-      'L, infinite bc not covered).  PARTIAL: T13_energy_variational_partial is Rayleigh-Ritz in an eigenbasis only.  Normalisation, canonical '
+      'direction move_right announces.  Coq theorem T13_no_stale_env (finite bc, ALL chain lengths L > n, n = 1, 2, ALL numbers of consecutive '
+      'sweeps, by induction with an explicit invariant, Proofs/SweepP2.v): in the model of update_env / free_no_longer_needed_envs / get_LP / '
+      'get_RP / del_LP / del_RP with site version tags, started from a fresh environment (only LP[0], RP[L-1] stored), every LP[i0] / '
+      'RP[i0+n-1] read for eff_H is contracted from the current versions of all sites to its left / right and after every step every stored '
+      'environment is current.  Still not covered by a theorem: environments under infinite bc (they lag by design; instrumentation and oracle '
+      'only), and the statement is about the tag model - its tie to the code is the differential correspondence below, not a proof.  '
+      'PARTIAL: T13_energy_variational_partial is Rayleigh-Ritz in an eigenbasis only.  Normalisation, canonical '
       'form, charge sector, E = <psi|H|psi> up to the reported truncation, E >= exact sector ground energy and convergence of untruncated two-site '
       'DMRG with a mixer are decided by the oracle only: exact diagonalisation of dense Hamiltonians built in the harness from the documented '
       'formulas (TFI, XXZ, spinless fermions, longer-range chains with complex couplings / explicit_plus_hc) on 3-8 sites, closed-form energies for '
@@ -14,5 +17,5 @@ check('C13', 'proof',
       'Trusted: Coq kernel+VM, harness generators/instrumentation/dense oracle.  Not modelled: tensors, truncation, eigensolver, mixers, VUMPS '
       'internals, segment bc, orthogonal_to.  Runs are generated with the mixer switched off before the last sweeps (a run that ends with an '
       'active mixer returns a non-canonical psi by design).  chi <= 16, <= 12 sweeps.',
-      'Coq proof over all L (schedule) + bounded evaluation (environments) + differential correspondence on instrumented runs + exact-diagonalisation oracle',
+      'Coq proofs over all L (schedule; environments of finite chains, all numbers of sweeps) + differential correspondence on instrumented runs + exact-diagonalisation oracle',
       '5.C13')
